@@ -72,8 +72,86 @@ def f2(rep):
                            "rule": "distinct items"})
 
 
+def f3(rep):
+    """F3 - __extract_classes / __separate_classes tokenise a NORMAL-FORM bracket body (any sequence of items; an item is a unit or
+    unit '-' unit; a unit is a character other than the six escapable ones, or a backslash and one of those six) into exactly its
+    items, ranges and characters apart.  Induction over the items, left to right (findall scans from the end of the previous
+    match; the alternation tries range_pattern first); its side conditions are regular-language facts about the REAL range_pattern
+    (read from the source each run) and are decided by the derivative engine:
+      (a) every range item is in L(range_pattern);            (b) L(range_pattern) is prefix-free (so the match at a range item is it);
+      (c) range_pattern matches no prefix of  <character item><items>*  (so at a character item the second alternative \\?. is used,
+          which - greedy optional backslash, then any character - takes exactly that item);
+      (d) no character item is in L(range_pattern) (the fullmatch that tells ranges from characters).
+    Relative to R3 / R7 for the two regexes and to the forms of the two bodies (compared with contracts/f2_forms.py each run)."""
+    import ast, copy
+    from .. import extract, rx2smt as R, lang
+    from ..common import native, CheckerError
+    idx = extract.Index()
+
+    def body_text(fi):
+        def strip(n):
+            for x in ast.walk(n):
+                if isinstance(x, ast.FunctionDef):
+                    x.body = [s for s in x.body if not (isinstance(s, ast.Expr) and isinstance(s.value, ast.Constant))]
+            return n
+        body = [s for s in copy.deepcopy(fi.node).body if not (isinstance(s, ast.Expr) and isinstance(s.value, ast.Constant))]
+        return "\n".join(ast.unparse(strip(s)) for s in body)
+    same = all(body_text(idx.func(K + n)) == F2_FORMS[n] for n in ("__separate_classes", "__extract_classes"))
+    # the real range_pattern: the constant expression assigned in the body
+    fi = idx.func(K + "__separate_classes")
+    rp = None
+    for st in fi.node.body:
+        if isinstance(st, ast.Assign) and len(st.targets) == 1 and getattr(st.targets[0], "id", None) == "range_pattern":
+            try:
+                rp = ast.literal_eval(ast.unparse(st.value)) if False else eval(compile(ast.Expression(st.value), "<rp>", "eval"), {"__builtins__": {}})
+            except Exception:
+                rp = None
+    if not isinstance(rp, str):
+        rep.ob("F3: tokenisation lemma: range_pattern could not be read from the source", "unknown", "ast-scan", 0, kind="refinement-lost")
+        return
+    trees = native("parse", {"patterns": [rp]})
+    if "tree" not in trees[0]:
+        rep.ob("F3: tokenisation lemma: range_pattern does not parse", "failed", "cpython", 0, kind="lemma")
+        rep.violation("F3: range_pattern of __separate_classes is not a valid regex", {"pattern": rp}, None, no_input=True)
+        return
+    U = ((0, R.MAXCP),)
+    RP = R.plain(trees[0]["tree"], U)
+    specials = R.cs_of("\\^[]-/")
+    C = R.cs(R.cs_minus(U, specials))
+    E = R.cat(R.cs(R.cs_of("\\")), R.cs(specials))
+    UNIT = R.alt(C, E)
+    DASH = R.cs(R.cs_of("-"))
+    RANGEITEM = R.cat(UNIT, DASH, UNIT)
+    ITEM = R.alt(UNIT, RANGEITEM)
+    ANY = R.cs(U)
+    facts = [
+        ("(a) every range item matches range_pattern", RANGEITEM, RP),
+        ("(b) range_pattern is prefix-free", R.conj(RP, R.cat(RP, ANY, R.star(ANY))), R.NONE),
+        ("(c) range_pattern matches no prefix of a character item followed by items", R.conj(R.cat(RP, R.star(ANY)), R.cat(UNIT, R.star(ITEM))), R.NONE),
+        ("(d) no character item matches range_pattern", R.conj(UNIT, RP), R.NONE),
+    ]
+    for name, A, B in facts:
+        try:
+            ok, cex, states = R.included(A, B, U)
+        except CheckerError as e:
+            rep.ob(f"F3 {name}", "unknown", "brz-derivative-product", 0, kind="lemma")
+            continue
+        if ok and same:
+            rep.ob(f"F3 {name}", "discharged", "brz-derivative-product", 0, kind="lemma")
+        elif ok:
+            rep.ob(f"F3 {name}: holds, but the bodies no longer have the form the induction was written for", "unknown", "ast-scan", 0,
+                   kind="refinement-lost")
+        else:
+            w = "".join(chr(c) for c in (cex or []))
+            rep.ob(f"F3 {name}", "failed", "brz-derivative-product", 0, kind="lemma")
+            rep.violation(f"F3 {name}", {"range_pattern": rp, "witness_text": w},
+                          {"kind": "python", "code": f"import pregex.core.classes as cl\nobserved = getattr(cl, '__Class')._Class__separate_classes({w!r})\nviolated = True"},
+                          witness=w)
+
+
 def run(rep, tier):
     f2(rep)
+    f3(rep)
     # interval core: VCs with loop invariants over lists-as-maps, all list lengths, all code points
     vcrun.run_functions(rep, INTERVAL + OPERATORS + CORE, tier)
     rep.assumptions.append("G8b (__or, __sub) is relative to the assumed contracts of the text layer: __extract_classes(t, unescape=True) "
